@@ -19,7 +19,7 @@ VARIABLES l,       \* next line to explain
 
 tvars == <<vars, l, moSeen>>
 
-CfgOf(e) == [mode |-> e.mode, count |-> e.count, spur |-> TRUE, fx0 |-> IF "fx0" \in DOMAIN e THEN e.fx0 ELSE 0, prog |-> e.prog]
+CfgOf(e) == [mode |-> e.mode, count |-> e.count, spur |-> TRUE, spw |-> 1000, slack |-> 1, fx0 |-> IF "fx0" \in DOMAIN e THEN e.fx0 ELSE 0, prog |-> e.prog]
 
 TInit ==
   /\ l = 2
@@ -51,7 +51,7 @@ Matches(m, e) ==
 Consume ==
   /\ l <= Len(Tr)
   /\ LET e == Tr[l]
-     IN /\ e.k \notin {"reset", "end", "final", "tick"}
+     IN /\ e.k \notin {"reset", "end", "final", "tick", "spur"}
         /\ Step(e.t, LAMBDA site : IF site = "of_head_cas_fail" THEN e.mof ELSE e.mo)
         /\ Matches(ev', e)
         /\ moSeen' = IF ev'.site # "" THEN moSeen \cup {<<ev'.site, ev'.mo>>} ELSE moSeen
@@ -64,10 +64,17 @@ Tick ==
   /\ l' = l + 1
   /\ UNCHANGED moSeen
 
+\* a futex_wait is about to return without a wake, at the logged virtual time
+Spurious ==
+  /\ l <= Len(Tr) /\ Tr[l].k = "spur"
+  /\ Spur(Tr[l].t, Tr[l].now)
+  /\ l' = l + 1
+  /\ UNCHANGED moSeen
+
 \* the latch stores a plain size_t: its construction is not visible in the trace
 Silent ==
   /\ l <= Len(Tr)
-  /\ Tr[l].k \notin {"reset", "end", "final", "tick"}
+  /\ Tr[l].k \notin {"reset", "end", "final", "tick", "spur"}
   /\ IsLatch
   /\ SvCons(Tr[l].t)
   /\ UNCHANGED <<l, moSeen>>
@@ -96,7 +103,7 @@ Reset ==
   /\ l' = l + 1
   /\ UNCHANGED moSeen
 
-TNext == (Consume \/ Tick \/ Silent \/ Final \/ End \/ Reset) /\ Progress /\ (l' > Len(Tr) => TLCSet(2, moSeen'))
+TNext == (Consume \/ Tick \/ Spurious \/ Silent \/ Final \/ End \/ Reset) /\ Progress /\ (l' > Len(Tr) => TLCSet(2, moSeen'))
 
 TSpec == TInit /\ [][TNext]_tvars
 
